@@ -67,6 +67,30 @@ METRICS = ("BRANCH", "LINE", "CHECKED")
 SUBSETS = [tuple(m for m, b in zip(METRICS, bits) if b) for bits in itertools.product([0, 1], repeat=3)]
 
 
+def reinstrument_after_reset(src_before: str, src_after: str, path: str, metrics, seeding=False):
+    """What a reload of the module under test does: the module was instrumented once (src_before), then the
+    SAME SubjectProperties are reset and the changed file (src_after) is instrumented by the same transformer.
+    Returns (sp, code of the second instrumentation)."""
+    setup()
+    import pynguin.configuration as config
+    from pynguin.analyses.constants import ConstantPool, DynamicConstantProvider, EmptyConstantProvider
+    from pynguin.instrumentation.machinery import build_transformer
+    from pynguin.instrumentation.tracer import SubjectProperties
+
+    sp = SubjectProperties()
+    dp = DynamicConstantProvider(ConstantPool(), EmptyConstantProvider(), 0.5, 10) if seeding else None
+    tr = build_transformer(sp, {config.CoverageMetric[m] for m in metrics}, config.ToCoverConfiguration(), dp)
+    with open(path, "w") as f:
+        f.write(src_before)
+    tr.instrument_code(compile(src_before, path, "exec"))
+    sp.reset()
+    with open(path, "w") as f:
+        f.write(src_after)
+    reset_records()
+    code = tr.instrument_code(compile(src_after, path, "exec"))
+    return sp, code
+
+
 def instrument(src: str, path: str, metrics, seeding=True):
     """Instrument like install_import_hook does (build_transformer).  Returns (sp, code, pool)."""
     setup()
@@ -262,6 +286,8 @@ def canon(v, depth=0):
         return ["int", str(v) if abs(v) < 10**30 else f"{v % 10**9}~{v.bit_length()}"]
     if isinstance(v, float):
         return ["float", "nan" if math.isnan(v) else v.hex()]
+    if isinstance(v, complex):
+        return ["complex", repr(v)]
     if isinstance(v, (tuple, list)):
         return [type(v).__name__, [canon(x, depth + 1) for x in v]]
     if isinstance(v, (set, frozenset)):
